@@ -28,6 +28,7 @@ DIMS = {
     "place": ["t", "id", "r90", "r180", "r30", "r45", "r1", "mx", "my", "md", "s2", "s05", "nu", "nu2", "sk", "out", "tiny", "near", "off05", "far"],
     "donor_paint": ["red", "rgba", "named", "omitted", "opacity", "current", "current_op", "var", "var_op"],
     "copy_paint": ["blue", "same", "black", "alpha", "current", "var", "lin_bbox", "lin_user", "rad_bbox", "rad_focal_fr"],
+    "twin": ["none", "same_glyph", "cross_glyph"],
     "lin_vec": ["bbox_h", "diag", "vert", "pct", "short", "user"],
     "lin_gt": ["none", "rot", "nonuniform", "skew", "translate", "involutory", "rotscale"],
     "lin_spread": ["pad", "repeat", "reflect"],
@@ -76,10 +77,14 @@ def relevant(dev):
         return False
     if dev.get("nglyphs") == 1 and dev.get("where") != "same" and any(k in dev for k in ("place", "copy_paint")):
         return False
-    if dev.get("nglyphs") == 1 and any(k in dev for k in ("grp", "seqlen")):
+    if dev.get("nglyphs") == 1 and any(k in dev for k in ("grp", "seqlen", "twin")):
         return False
     if dev.get("nglyphs") == 1 and any(k.startswith("rad_") for k in dev):
         return False
+    if dev.get("twin", "none") != "none" and any(k.startswith("rad_") for k in dev):
+        return False  # the twin overrides the oval's gradient
+    if dev.get("twin") == "cross_glyph" and any(k.startswith("lin_") for k in dev):
+        return False  # ... and the blob's
     if dev.get("grp") == "emptyglyph" and dev.get("nglyphs") == 1:
         return False
     return True
@@ -176,6 +181,19 @@ def mk(a):
         "rad_bbox": Radial("rg2", 0.5, 0.5, 0.5, STOPS2),
         "rad_focal_fr": Radial("rg2", 0.5, 0.5, 0.5, STOPS2, fx=0.35, fy=0.4, fr=0.1),
     }[cpn]
+    tri_paint = Solid("green")
+    twin = a.get("twin", "none")
+    if twin != "none":
+        # twins: the same circles and stops under two different gradientTransforms. Both are non-uniform scales
+        # about the user-space origin with the same largest factor, so after nanoemoji splits off the uniform part
+        # the two gradients have *identical* geometry and differ in the residual transform only (a gradient-sharing
+        # key that ignores the transform would merge them). Neither shape is a reused copy.
+        twin_paint = Radial("rg3", ox + 55 * k, oy + 130 * k, 40 * k, STOPS_YG, units="userSpaceOnUse", gt=aff.around(aff.sc(0.5, 1), ox, oy))
+        if twin == "same_glyph":
+            tri_paint = twin_paint  # next to the oval, in glyph B
+        else:
+            lin = twin_paint  # on the blob of glyph A: shares a document with the oval only when reuse links the glyphs
+        rad = Radial("rg1", ox + 55 * k, oy + 130 * k, 40 * k, STOPS_YG, units="userSpaceOnUse", gt=aff.around(aff.sc(1, 0.5), ox, oy))
     copy_op = 0.6 if cpn == "alpha" else (donor_op if cpn == "same" else 1.0)
     pl = a["place"]
     donor_d = P(od)
@@ -209,7 +227,7 @@ def mk(a):
         a_nodes = a_nodes + [Shape(copy_d, copy_paint, opacity=copy_op, label="copy-in-A")]
     A = Glyph((0xE000,), vb, a_nodes)
 
-    tri = Shape(P(OUT["tri"], aff.tr(40, 50)), Solid("green"), label="tri")
+    tri = Shape(P(OUT["tri"], aff.tr(40, 50)), tri_paint, label="tri")
     ov = Shape(P(OUT["oval"], aff.tr(30, 40)), rad, label="oval-rad")
     copy = Shape(copy_d, copy_paint, opacity=copy_op, label="copy")
     if where == "same":  # glyph B keeps a shape in that slot, but not a copy of the donor
